@@ -1,6 +1,7 @@
 """C04 - student-code failures are contained and reported, never raised into the grader."""
 import builtins
 import itertools
+import re
 import sys
 
 from hypothesis import strategies as st
@@ -193,7 +194,8 @@ def build_program(source_id, position, prefix=''):
 
 
 def marked_line(text):
-    for i, l in enumerate(text.split('\n'), 1):
+    # lines as CPython counts them: a lone carriage return ends a line too
+    for i, l in enumerate(re.split(r'\r\n|\r|\n', text), 1):
         if MARK in l:
             return i
     return None
@@ -238,6 +240,8 @@ def judge(case):
         extra, run_code, call_code, expected = build_program(sid, position, case.get('prefix', ''))
         files = dict(extra)
         files['answer.py'] = run_code if entry == 'run' else call_code
+        if case.get('no_final_newline'):
+            files['answer.py'] = files['answer.py'].rstrip('\n')      # a file whose last line is not terminated
         classes.append('kind=' + ('builtin' if sid in builtin_exception_sources() else sid.split('-')[0]))
     MAIN_REPORT.contextualize(Submission(files=files, main_file='answer.py'))
     sb = get_sandbox()
@@ -333,6 +337,14 @@ def table(tier):
         for threaded, tracer in itertools.product([False, True], TRACERS):
             yield {'source': sid, 'position': 'top', 'entry': 'run', 'threaded': threaded, 'tracer': tracer}
         yield {'source': sid, 'position': 'top', 'entry': 'run', 'threaded': False, 'tracer': 'none', 'prefix': 'a = 1\nb = 2\n'}
+    # files with old-Mac / stray carriage returns (a line break for CPython, not for str.split('\n')), with and without a final newline:
+    # the failing lines lie at and just beyond the end of a '\n'-separated line table
+    for sid in ('implicit-zero-div', 'implicit-name', 'user-empty-message', 'sys-exit-code', 'assert', 'raise-then-finally'):
+        for prefix in ('a = 1\rb = 2\n', 'a = 1\rb = 2\rc = 3\n', 'a = 1\r\nb = 2\r'):
+            for entry in ('run', 'call'):
+                for nfn in (False, True):
+                    yield {'source': sid, 'position': 'top' if entry == 'run' else 'function', 'entry': entry, 'threaded': False, 'tracer': 'none',
+                           'prefix': prefix, 'no_final_newline': nfn}
 
 
 ENUMS = {'table': table}
